@@ -103,12 +103,34 @@ func runTLVWord(b Beh, seed int64) []J {
 					rt = false
 					o["failed_delivery"] = pol
 				}
+				// the other accessors: the value as a string, its first byte (0 when there is none)
+				for _, cc := range []util.Container{c, c2} {
+					gb, gs, pan := tlvAccessors(cc, tg)
+					wb := byte(0)
+					if len(w) > 0 {
+						wb = w[0]
+					}
+					if pan || gb != wb || gs != string(w) {
+						rt = false
+						o["failed_delivery"], o["failed_accessor"] = pol, true
+					}
+				}
 			}
 		}
 		o["roundtrip"] = rt
 		lines = append(lines, o)
 	}
 	return lines
+}
+
+// tlvAccessors reads a tag through GetByte and GetString; a panic is an observation.
+func tlvAccessors(c util.Container, tag byte) (b byte, str string, panicked bool) {
+	defer func() {
+		if r := recover(); r != nil {
+			panicked = true
+		}
+	}()
+	return c.GetByte(tag), c.GetString(tag), false
 }
 
 var tlvDeliveries = []string{"whole", "one_byte", "halves", "data_with_eof"}
@@ -122,7 +144,7 @@ func tlvReader(b []byte, policy string) io.Reader {
 
 func parseLine(id, i int, in []byte) J {
 	pol := tlvDeliveries[(i/4)%len(tlvDeliveries)]
-	o := J{"ev": "parse", "case": id, "i": i, "in": intsOf(in), "ok": false, "panic": false, "tags": []int{}, "vals": [][]int{}, "delivery": pol}
+	o := J{"ev": "parse", "case": id, "i": i, "in": intsOf(in), "ok": false, "panic": false, "tags": []int{}, "vals": [][]int{}, "firsts": []int{}, "strs": [][]int{}, "delivery": pol}
 	func() {
 		defer func() {
 			if r := recover(); r != nil {
@@ -137,12 +159,16 @@ func parseLine(id, i int, in []byte) J {
 		seen := map[byte]bool{}
 		tags := []int{}
 		vals := [][]int{}
+		firsts := []int{}
+		strs := [][]int{}
 		for k := 0; k+1 < len(in) && len(tags) < 6; k++ {
 			t := in[k]
 			if !seen[t] {
 				seen[t] = true
 				tags = append(tags, int(t))
 				vals = append(vals, intsOf(c.GetBytes(t)))
+				firsts = append(firsts, int(c.GetByte(t)))
+				strs = append(strs, intsOf([]byte(c.GetString(t))))
 			}
 		}
 		// a tag that does not occur
@@ -150,10 +176,12 @@ func parseLine(id, i int, in []byte) J {
 			if !bytes.Contains(in, []byte{byte(t)}) {
 				tags = append(tags, t)
 				vals = append(vals, intsOf(c.GetBytes(byte(t))))
+				firsts = append(firsts, int(c.GetByte(byte(t))))
+				strs = append(strs, intsOf([]byte(c.GetString(byte(t)))))
 				break
 			}
 		}
-		o["tags"], o["vals"] = tags, vals
+		o["tags"], o["vals"], o["firsts"], o["strs"] = tags, vals, firsts, strs
 	}()
 	return o
 }
